@@ -82,7 +82,11 @@ def view_history(rng, tier):
                 rcnt = rcnt[:-1] if len(rcnt) > 1 and rng.random() < 0.6 else rcnt + [1]
                 if rng.random() < 0.6: roff = []
             n_el = A.prod(rcnt) if rcnt else A.prod(wcnt)
-            if rng.random() < 0.55:
+            if rng.random() < 0.2 and len(wcnt) == rank and all(x > 0 for x in wcnt):
+                # typed transfers of one value / of a vector the library sizes, through the window
+                lines.append(A.typed_op(rng, 'dv', dt, wcnt, val=(lambda: 'x' + ('w%d' % rng.randrange(1000)).encode().hex()) if dt == 'String' else None))
+                lines.append('da_rd %s %s %s %d' % (dt, A.idx(shape), A.idx([0] * rank), A.prod(shape)))
+            elif rng.random() < 0.55:
                 lines.append('dv_rd %s %s %s %d' % (dt, A.idx(rcnt), A.idx(roff), n_el))
             else:
                 v = [A.small_value(dt, rng) if dt != 'String' else 'x' + ('w%d' % rng.randrange(1000)).encode().hex() for _ in range(n_el)]
